@@ -65,6 +65,7 @@ def main():
         "attr_profiles": attr_profiles,
         "global_order": global_order,
         "callers": callers,
+        "sources": {q: ast.unparse(repo.func(q).node) for q in callers if repo.func(q).parent is None},
     }
     p = os.path.join(os.path.dirname(os.path.dirname(os.path.abspath(__file__))), "sa", "inventory.json")
     with open(p, "w") as f:
